@@ -14,7 +14,10 @@
 //     names follow protoc-gen-go's rules (a disagreement between goa's idea of
 //     those names and protoc-gen-go's is a compile error, as for a user).
 //
-// The runtime half (client -> loopback -> server round trips) is driven from rt/.
+// The runtime half (second sentence of the property: client -> loopback -> server round trips, rejection of
+// invalid messages before user code) is runtime.go: every design that passes the clauses above is driven by a
+// child process linked with the real generated code (pipeline.WriteGRPCHarness, package rtgrpc, case lists from
+// cases.GRPCCases, verdicts from oracle.C10RT).
 package main
 
 import (
@@ -346,7 +349,7 @@ func runBatch(dir string, specs []*spec.Spec) (*pipeline.Batch, error) {
 
 func main() {
 	run := vc.New("C10")
-	run.Rule("gRPC specs drawn from (seed, index) [services, methods, payload/result shapes, field numbers, OneOf, aliases, nested/recursive types, metadata/header/trailer mappings, 4 streaming kinds], printed as DSL, run through the real eval.RunDSL + generator.Generate(gen, example) in a fresh process each with the stand-in protoc first on PATH; every generated .proto re-parsed by the independent proto3 parser and compared with the spec; every generated package compiled; non-trivial = accepted, well-formed, structurally equal to the spec and compiled; distinct = distinct feature signature")
+	run.Rule("gRPC specs drawn from (seed, index) [services, methods, payload/result shapes, field numbers, OneOf, aliases, nested/recursive types, metadata/header/trailer mappings, 4 streaming kinds], printed as DSL, run through the real eval.RunDSL + generator.Generate(gen, example) in a fresh process each with the stand-in protoc first on PATH; every generated .proto re-parsed by the independent proto3 parser and compared with the spec; every generated package compiled; non-trivial = accepted, well-formed, structurally equal to the spec and compiled; distinct = distinct feature signature. Runtime half: every such design is driven in a child process through the real generated client, server and endpoints over the pbrt loopback (valid payloads / streams / results over boundary classes, boundary probes of every validation rule through the generated client and as hand-built protobuf messages, scripted invalid results); each exchange is judged offline from the spec; distinct also counts (method shape x case class) signatures of held exchanges")
 	run.Assume("protoc and protoc-gen-go are absent from the sandbox: well-formedness is decided by the lab's own strict proto3 parser (grammar and semantic checks transcribed from the protobuf language specification), Go API compatibility by stand-in *.pb.go files whose identifiers follow protoc-gen-go's published naming algorithm (GoCamelCase, conflict suffixes, oneof wrappers)",
 		"attribute, type, service and method names are ASCII identifiers; proto messages/fields/rpcs are matched to spec types/attributes/methods by case- and underscore-insensitive name (goa's exact renaming is not part of the property)",
 		"generation-time clauses and round trips are decided by the same run: the runtime half (runtime.go) drives every design that passed the generation-time clauses")
